@@ -30,13 +30,24 @@ CLAIM = dict(
          "the files of an n1-iteration run and running n2 more iterations succeeds and ends in exactly the state of the "
          "uninterrupted n1+n2 run (K-point list, weights, result_all), writes exactly its saved results for iterations "
          "n1+1..n1+n2, leaves an identical K_list.pickle and the same set of factors files; (T2') the same for any split "
-         "of the remaining iterations into several restarts with a re-shuffled listing before each.",
+         "of the remaining iterations into several restarts with a re-shuffled listing before each. (T3) any amount of "
+         "in-memory state that is not written to the restart files is harmless as long as the refinement decision does not "
+         "read it, and a decision that reads it provably breaks equivalence. (T4) equivalence for the concrete selection "
+         "rule of run() (per criterion the adpt_fac last positions of argsort(max|result| x weight), union, then any "
+         "division/merging) for EVERY argsort function; on tie-free scores all admissible argsorts select the same "
+         "points, on ties two admissible argsorts provably select different ones; padding the score array with zero "
+         "scores (stale points of a restart from an earlier iteration) does not change the selection when the positive "
+         "scores are pairwise different and at least adpt_fac of them exist. Storage names under restarts: see C10.",
     note="Trusted: Lean kernel + Mathlib; the harness (glob.glob patched in the harness process to permute the listing). "
          "Pickle round trips, the file system, Result arithmetic and the determinism of the real selection/merging code "
          "are exercised on the real run() only. Restarts from an EARLIER iteration (restart_iteration != -1, stale "
          "points revived by exclude_equiv_points) are outside the theorems and covered by the oracle only.",
 )
 TRUSTED = [
+    "regenerated on every run: `chooseIterGen` is produced from the LIVE source of read_factors by an AST translator "
+    "(harness/props/_translate.py; fragment: int arithmetic/comparisons, a[-1], a[a <= x], `in`, np.sort/np.array/list "
+    "comprehension over glob.glob) and the kernel re-checks order independence for it and its definitional equality with "
+    "the hand model; the translator itself is trusted; outside the fragment the hand model is used (evidence note)",
     "modelled: run() restart branch (reload of K_list.pickle, read_factors incl. the negative-index arithmetic and the "
     "`closest previous` fallback, zero padding, set_factor, result_all = sum get_result_factor, the no-op pass i_iter=0 "
     "that rewrites the factors file and saves nothing), append of K_list[nk_prev:nk] to K_list.pickle, write_factors, "
@@ -45,6 +56,10 @@ TRUSTED = [
     "flags, order); the real decision also reads immutable geometric attributes that are pickled with each K-point",
     "setFactors truncates a factors vector that is longer than K_list (the code would raise ValueError: negative "
     "dimensions); unreachable, K_list.pickle only grows and every factors file is at most as long as the list",
+    "selection rule: `crit` (result.max as a function of the stored result), `argsort` (any function) and `expand` "
+    "(division + symmetry merging of the selected points) are parameters; np.argsort's behaviour on ties is NOT assumed "
+    "stable - the tie-free theorem and the tie counterexample delimit what can be expected of restarts from an earlier "
+    "iteration, whose arrays contain additional stale zero-weight entries (checked on the real code only)",
     "not modelled (oracle only): pickle/np.save round trips, Klist_part chunking, remove_dir, restart_iteration != -1 "
     "with revival of stale points, float rounding of the re-summed result_all (exact on dyadic weights x integer results)",
 ]
@@ -273,12 +288,101 @@ def corr_campaign(ctx):
     return lines, check
 
 
+def corr_selection(ctx):
+    """the model's selectPoints (stable argsort) vs the K-points the REAL run() divided, on the Kmax rows rebuilt from
+    the restart files; compared when the non-zero scores of every criterion are pairwise different (T4'), and then
+    on the selected points of non-zero weight (zero-weight ones leave no trace)"""
+    rng = ctx.rng
+    d = rg.scratch("c11sel")
+    lines, checks = [], []
+    for it in range(ctx.n(6, 40)):
+        cfg = c10.merge_heavy(it, niter=3) if it % 3 == 0 else c10.rand_config(rng, real_calc=False)
+        cfg["calcs"] = ("peak",) if it % 2 == 0 else cfg["calcs"]
+        if cfg["calcs"] == ("peak",):
+            cfg["width"] = 0.3
+        cfg["adpt_num_iter"] = min(cfg["adpt_num_iter"], 3)
+        with ctx.attempt("run for the selection correspondence", cfg):
+            res, pre, kl = c10.do_run(cfg, "restart", d, "sel")
+            K = rg.read_klist(kl)
+            facs = rg.read_all_factors(kl)
+            for t in range(cfg["adpt_num_iter"]):
+                f0, f1 = facs[t], facs[t + 1]
+                n = len(f0)
+                rows = np.array([K[i]._max * f0[i] for i in range(n)]).T
+                tie = any(len(set(r[r != 0])) != int(np.sum(r != 0)) for r in rows) or \
+                    any(int(np.sum(r > 0)) < cfg["adpt_fac"] for r in rows)
+                ctx.count("corr.selection.ties_or_too_few_live_points(skipped)" if tie else "corr.selection.tie_free")
+                if tie:
+                    continue
+                lines.append(f"select {cfg['adpt_fac']} {';'.join(rats(r) for r in rows)}")
+                checks.append(dict(case=dict(cfg, iteration=t), f0=f0,
+                                   divided=sorted(int(i) for i in range(n) if f0[i] != 0 and f1[i] == 0)))
+    rg.cleanup()
+
+    def check(out):
+        for l, o, c in zip(lines, out, checks):
+            ctx.case(signature=l[:2000], nontrivial=True)
+            sel = sorted(i for i in (int(x) for x in o.split(",")) if c["f0"][i] != 0) if o not in ("_", "bad-op") else []
+            if o == "bad-op" or sel != c["divided"]:
+                ctx.mismatch(f"selection rule: the model selects {sel}, run() divided {c['divided']}", dict(c["case"], line=l[:300]))
+    return lines, check
+
+
+def tables(ctx):
+    """regenerate `chooseIter` from the live source of read_factors (AST translator) and let the kernel re-check T1 for
+    the regenerated definition; fall back to the hand model when the source leaves the translator's fragment"""
+    from ..common import REPO
+    from . import _translate as T
+    try:
+        definition, info = T.translate_read_factors(REPO)
+    except T.OutsideFragment as e:
+        ctx.note(f"translator: read_factors left the supported Python fragment ({e}); the hand-written model chooseIter "
+                 f"is used and tied to the code by the correspondence check only")
+        ctx.count("tables.read_factors.fallback_to_hand_model")
+        return
+    header = "import WB.Props.C11\nnamespace WB.C11\nnamespace Gen\n"
+    ths = [
+        ("gen_order_independent",
+         "theorem gen_order_independent (l1 l2 : List Nat) (h : l1.Perm l2) (iter : Int) :\n"
+         "    chooseIterGen l1 iter = chooseIterGen l2 iter := by\n"
+         "  unfold chooseIterGen\n  simp only [sortNat_eq_of_perm h]\n"),
+        ("gen_eq_hand",
+         "theorem gen_eq_hand (lst : List Nat) (iter : Int) : chooseIterGen lst iter = chooseIter true lst iter := by\n"
+         "  first\n    | rfl\n    | (unfold chooseIterGen chooseIter; simp)\n"),
+        ("gen_eq_original",
+         "theorem gen_eq_original (lst : List Nat) (iter : Int) : chooseIterGen lst iter = chooseIter false lst iter := by\n"
+         "  first\n    | rfl\n    | (unfold chooseIterGen chooseIter; simp)\n"),
+    ]
+    res, out = T.check_generated(ctx, "GenC11.lean", header, definition, ths)
+    if res is None:
+        ctx.note("translator: the regenerated chooseIterGen did not compile; hand model used. " + out[-300:].replace("\n", " | "))
+        ctx.count("tables.read_factors.fallback_to_hand_model")
+        return
+    ctx.count("tables.read_factors.regenerated")
+    if res["gen_order_independent"]:
+        T.record(ctx, "Gen.gen_order_independent(chooseIterGen from live read_factors)", True)
+        if res["gen_eq_hand"]:
+            T.record(ctx, "Gen.gen_eq_hand(chooseIterGen = chooseIter true)", True)
+            ctx.note("translator: chooseIterGen regenerated from the live read_factors is definitionally equal to the hand "
+                     "model; T1 (order independence) re-proved for the regenerated definition")
+        else:
+            ctx.note("translator: chooseIterGen regenerated from the live read_factors differs from the hand model, but T1 "
+                     "(order independence) was re-proved for it; the other theorems rest on the correspondence check")
+    else:
+        why = "it equals the ORIGINAL rule (listing order used as is), for which old_read_factors_depends_on_listing is a " \
+              "proved counterexample" if res["gen_eq_original"] else "see the regenerated definition"
+        T.record(ctx, "Gen.gen_order_independent(chooseIterGen from live read_factors)", False,
+                 f"the definition regenerated from the live read_factors is NOT independent of the listing order: {why}")
+
+
 def corr(ctx):
     l1, chk1 = corr_read_factors(ctx)
     l2, chk2 = corr_campaign(ctx)
-    out = ctx.lean(l1 + l2)
+    l3, chk3 = corr_selection(ctx)
+    out = ctx.lean(l1 + l2 + l3)
     chk1(out[:len(l1)])
-    chk2(out[len(l1):])
+    chk2(out[len(l1):len(l1) + len(l2)])
+    chk3(out[len(l1) + len(l2):])
 
 
 # ------------------------------------------------------------------------------------------------
@@ -373,6 +477,8 @@ def oracle(ctx, scale):
                              f"run's holds {fresh_nk}", case)
                 else:
                     check_selection(ctx, camp["kl"], cfg, N, "restarted campaign", case)
+                    if store == "dump":
+                        c10.check_own_files(ctx, camp["kl"], cfg, "restarted campaign (dump_results)", case)
         # restart from an EARLIER iteration (restart_iteration given explicitly or negative).  Outside the property
         # statement and the theorems: the K-point list then contains stale zero-weight points, np.argsort may break
         # ties between equal refinement criteria differently, and the redone iterations may legitimately refine other
